@@ -1526,3 +1526,130 @@ Proof.
   - intros x Hx. inversion Hx; subst x. split; [discriminate|].
     intros bl sh k Hm. vm_compute in Hm. inversion Hm. discriminate.
 Qed.
+
+(* ------------------------------------------------------------------ objects derived through numpy *)
+Lemma np_derive_pure g x : pure (np_derive g x).
+Proof. unfold np_derive. pure_tac. Qed.
+Lemma view_of_pure x : pure (view_of x).
+Proof. unfold view_of. pure_tac. Qed.
+
+Lemma np_derive_eq g x s s1 d : np_derive g x s = (s1, Ok d) ->
+  exists dt da sh k,
+    s1 = mkstore (S (S (next s))) (upd (upd (mem s) (next s) (CBuf dt da)) (S (next s)) (CArr (next s) sh k))
+    /\ d = S (next s).
+Proof.
+  unfold np_derive, bind. destruct (arr_info x s) as [s' [i|e]] eqn:E; [|inversion 1].
+  pose proof (arr_info_inv _ _ _ _ E). subst s'. rewrite new_arr_eq. inversion 1; subst. eauto 8.
+Qed.
+
+(* histories of in-place operations on c whose header keeps buffer bc: only c (fresh) and bc (fresh,
+   or allowed by F) are written *)
+Lemma run_uops_ext F s0 c bc ops : forall s,
+  next s0 <= c -> (next s0 <= bc \/ In bc F) -> c <> bc -> hdr s c bc -> ext F s0 s ->
+  ext F s0 (run_uops c ops s).
+Proof.
+  induction ops as [|o r IH]; intros s Hc Hb Hn Hh He; simpl; auto.
+  pose proof Hh as [Hl (sh & k & Hm)].
+  apply IH; auto.
+  - apply run_uop_keeps; auto.
+  - eapply ext_step; [exact He|eapply run_uop_frame; eauto|].
+    intros l [<-|[<-|[]]] Hlt; [lia|]. destruct Hb; [lia|auto].
+Qed.
+
+(* DERIVED AXES: after d = x + 0 / x - 1 / copy.copy(x) / deepcopy(x) / np.copy(x, subok=True), which
+   shares x's t0 / interval / duration objects, ANY sequence of += -= *= on d leaves every location
+   that existed before as it was: the attribute objects are re-bound, never written *)
+Lemma derive_then_history g x s s1 d ops :
+  np_derive g x s = (s1, Ok d) -> ext [] s (run_uops d ops s1).
+Proof.
+  intros Hd. pose proof (np_derive_pure g x s) as He. rewrite Hd in He. simpl in He.
+  apply np_derive_eq in Hd as (dt & da & sh & k & -> & ->).
+  apply run_uops_ext with (bc := next s).
+  - lia.
+  - left. lia.
+  - lia.
+  - split; simpl; [lia|]. exists sh, k. apply upd_same.
+  - exact He.
+Qed.
+
+(* VIEWS: after v = x[:] / x.view(), a history on v writes the shared sample buffer b (numpy's view
+   semantics) and nothing else that existed: in particular not the attribute objects of x *)
+Lemma view_then_history x s s1 v ops b sh k :
+  mem s x = Some (CArr b sh k) -> b < next s -> view_of x s = (s1, Ok v) ->
+  ext [b] s (run_uops v ops s1).
+Proof.
+  intros Hm Hb Hv. pose proof (view_of_pure x s) as He. rewrite Hv in He. simpl in He.
+  revert Hv. unfold view_of. cbv beta delta [bind read]. rewrite Hm. unfold alloc. inversion 1; subst.
+  apply run_uops_ext with (bc := b).
+  - simpl. lia.
+  - right. simpl. auto.
+  - lia.
+  - split; simpl; [lia|]. exists sh, k. apply upd_same.
+  - eapply ext_weaken; [exact He|intros l []].
+Qed.
+
+Lemma derive_history_snapshot g x s s1 d ops l :
+  wf s -> l < next s -> np_derive g x s = (s1, Ok d) -> snapshot (run_uops d ops s1) l = snapshot s l.
+Proof. intros. apply ext_nil_snapshot; auto. eapply derive_then_history; eauto. Qed.
+
+Lemma view_history_snapshot x s s1 v ops b sh k l :
+  wf s -> mem s x = Some (CArr b sh k) -> view_of x s = (s1, Ok v) ->
+  l < next s -> ~ In b (footprint s l) ->
+  snapshot (run_uops v ops s1) l = snapshot s l.
+Proof.
+  intros Hw Hm Hv Hl Hn. apply (frame_snapshot [b]); auto.
+  - eapply view_then_history; eauto. destruct Hw as [_ Hr]. apply (Hr x _ Hm). destruct k; simpl; auto.
+  - intros y Hy [<-|[]]. auto.
+Qed.
+
+(* a TimeArray derived through numpy, then element assignment on it *)
+Lemma derive_then_setitem g x s s1 d a n v :
+  np_derive g x s = (s1, Ok d) -> ext [] s (fst (ta_setitem d a n v s1)).
+Proof.
+  intros Hd. pose proof (np_derive_pure g x s) as He. rewrite Hd in He. simpl in He.
+  apply np_derive_eq in Hd as (dt & da & sh & k & -> & ->).
+  eapply ext_step; [exact He|eapply ta_setitem_frame with (b := next s) (sh := sh) (k := k)|].
+  - cbn [mem]. apply upd_same.
+  - cbn [next]. lia.
+  - intros l [<-|[]] Hl. lia.
+Qed.
+Lemma derive_setitem_snapshot g x s s1 d a n v l : wf s -> l < next s ->
+  np_derive g x s = (s1, Ok d) -> snapshot (fst (ta_setitem d a n v s1)) l = snapshot s l.
+Proof. intros. apply ext_nil_snapshot; auto. eapply derive_then_setitem; eauto. Qed.
+
+(* witnesses on the example axis (object 7; t0 / interval / duration are objects 1 / 3 / 5) *)
+(* the derived axis shares the attribute objects ... *)
+Lemma ex_derived_shares :
+  exists s1 d, np_derive (fun l => l) 7 ex_ut = (s1, Ok d) /\ In 1 (footprint s1 d) /\ In 3 (footprint s1 d).
+Proof. eexists. eexists. split; [vm_compute; reflexivity|]. split; vm_compute; tauto. Qed.
+(* ... and `d += 3` re-binds: d moves, the original (samples and attribute VALUES) does not *)
+Lemma ex_derived_iadd :
+  exists s1 d, np_derive (fun l => l) 7 ex_ut = (s1, Ok d) /\
+    snd (ut_iop 1 d (PInt 3) s1) = Ok tt /\
+    snapshot (fst (ut_iop 1 d (PInt 3) s1)) d <> snapshot s1 d /\
+    snapshot (fst (ut_iop 1 d (PInt 3) s1)) 7 = snapshot ex_ut 7.
+Proof.
+  eexists. eexists. split; [vm_compute; reflexivity|]. repeat split; vm_compute; try reflexivity; discriminate.
+Qed.
+(* with augmented assignments in _follow_shift the shared t0 object is overwritten: the original axis,
+   which the call never received, shows a different t0 although its samples stay put *)
+Lemma follow_shift_aug_refuted :
+  exists s x s1 d, np_derive (fun l => l) x s = (s1, Ok d) /\
+    snd (ut_iop_aug 1 d (PInt 3) s1) = Ok tt /\
+    snapshot (fst (ut_iop_aug 1 d (PInt 3) s1)) x <> snapshot s x /\
+    arr_snap (fst (ut_iop_aug 1 d (PInt 3) s1)) x = arr_snap s x.
+Proof.
+  exists ex_ut, 7. eexists. eexists. split; [vm_compute; reflexivity|].
+  repeat split; vm_compute; try reflexivity; discriminate.
+Qed.
+(* a view: `v += 3` moves the shared samples, the attribute objects of the original keep their values *)
+Lemma ex_view_iadd :
+  exists s1 v, view_of 7 ex_ut = (s1, Ok v) /\
+    snd (ut_iop 1 v (PInt 3) s1) = Ok tt /\
+    arr_snap (fst (ut_iop 1 v (PInt 3) s1)) 7 <> arr_snap ex_ut 7 /\
+    snapshot (fst (ut_iop 1 v (PInt 3) s1)) 1 = snapshot ex_ut 1 /\
+    snapshot (fst (ut_iop 1 v (PInt 3) s1)) 3 = snapshot ex_ut 3 /\
+    snapshot (fst (ut_iop 1 v (PInt 3) s1)) 5 = snapshot ex_ut 5.
+Proof.
+  eexists. eexists. split; [vm_compute; reflexivity|]. repeat split; vm_compute; try reflexivity; discriminate.
+Qed.
